@@ -375,7 +375,12 @@ PROPS['C16'] = dict(
           'subscribe / unsubscribe end without exhausting their fuel once the fuel exceeds work + 5 (the 5 pays for the one '
           'PINGREQ that may be queued) - every iteration either leaves the loop or strictly lowers that measure, a step reporting '
           '"nothing done" cannot be selected (C16_drive_loop_terminates, C16_flush_outbound_terminates, C16_op_drive_terminates, '
-          'with a computed example on a resumed connection). Towards the broker: the packet reader on a behaving transport assembles '
+          'with a computed example on a resumed connection). The outbound half of quiescence: on a behaving transport, a live '
+          'connection without broker size limit and with no PINGREQ due, whose entries are unsent or awaiting their flush (as after every '
+          '(re)connect) - one engine step takes the selected entry all the way (written whole, flushed, marked sent; never an error, '
+          'a dropped future or a lost entry: C16_healthy_step) and drive() sends EVERYTHING queued - owed acknowledgements, pending '
+          'PUBRELs, retained packets to replay - returning with every entry marked sent and the control queue empty '
+          '(C16_drive_sends_all, C16_drained_all_sent, computed instance C16_healthy_example). Towards the broker: the packet reader on a behaving transport assembles '
           'exactly the packet whose bytes have arrived and stops (C16_reader_completes_arrived_packet, any length up to the receive '
           'buffer); poll() with nothing left to write and no timer pending reads precisely that packet '
           '(C16_poll_reads_arrived_packet); and one exchange end to end: a PUBACK that has arrived completes its QoS 1 publish in '
@@ -387,7 +392,7 @@ PROPS['C16'] = dict(
           'polls - must end live with no owed acknowledgement, no pending PUBREL, a publish-quiescent session and no pending handle; a '
           'poll that returns without a message must have made wire progress; an operation performing 50000 I/O calls (model: fuel) is '
           'reported as spinning.',
-    note='Partial: termination of the engine loops is a theorem (strictly decreasing measure, no assumption on the transport); a PUBACK completing its publish in one poll is a theorem (transport behaving, no keep-alive timer pending); that the answers to an arbitrary backlog (QoS 2, subscriptions, replays after reconnect) complete every handle within a bounded number of polls is a check over generated histories. '
+    note='Partial: termination of the engine loops is a theorem (strictly decreasing measure, no assumption on the transport); drive() sending everything queued on a behaving transport is a theorem (no broker size limit, no PINGREQ due), so is poll() handing an arrived packet to the session and a PUBACK completing its publish in one poll (no PINGREQ due); that the answers to an arbitrary backlog (QoS 2, subscriptions, replays after reconnect) complete every handle within a bounded number of polls is a check over generated histories. '
          'Trusted: Coq kernel, model, extraction, harness with its healing action and automatic broker. No axioms. '
          'Known finding K12 (arena too full to reconnect) blocks the drain and is reported as KNOWN-FINDING.')
 
